@@ -35,7 +35,8 @@ IsEv == l <= Len(T.ev) /\ l' = l + 1 /\ UNCHANGED tid
 
 ObsObj(r) == [cells |-> FromRows(r.rows), area |-> r.area, bbox |-> <<r.bbox[1], r.bbox[2], r.bbox[3], r.bbox[4]>>,
               ccw |-> r.ccw, closed |-> r.closed, buf |-> r.lead]
-ObsDev(r) == [film |-> r.film, holes |-> r.holes, inside |-> FromRows(r.inside)]
+ObsDev(r) == [film |-> r.film, holes |-> r.holes, inside |-> FromRows(r.inside),
+              probes |-> [k \in 1 .. Len(r.probes) |-> <<r.probes[k][1], r.probes[k][2]>>]]
 
 HeapMatches(os, ds) ==
   /\ Len(os) = Len(Ev.objs)
@@ -51,7 +52,7 @@ Applied ==
     [] Ev.op = "scale"        -> DoScale(Ev.a, Ev.parc, Ev.orgc, Ev.inplace)
     [] Ev.op = "copy"         -> DoCopy(Ev.a)
     [] Ev.op = "poke"         -> DoPoke(Ev.a, Ev.parc)
-    [] Ev.op = "mkdev"        -> DoMkDev(Ev.a, Ev.hs)
+    [] Ev.op = "mkdev"        -> DoMkDev(Ev.a, Ev.hs, Ev.pm)
     [] Ev.op = "devcopy"      -> DoDevCopy(Ev.a)
     [] Ev.op = "devtranslate" -> DoDevTranslate(Ev.a, Ev.parc, Ev.inplace)
     [] Ev.op = "devrotate"    -> DoDevRotate(Ev.a, Ev.q, Ev.orgc)
@@ -63,7 +64,8 @@ TStrict == /\ Strict /\ T.kind = "chain" /\ IsEv
            /\ HeapMatches(objs', devs')
 
 OpOf(e) == [op |-> e.op, kind |-> e.kind, a |-> IF e.op = "new" THEN e.box ELSE e.a, b |-> e.b, inplace |-> e.inplace,
-            q |-> e.q, par |-> PairOf(e.parc), org |-> PairOf(e.orgc), hs |-> e.hs, res |-> e.res, out |-> e.out]
+            q |-> e.q, par |-> PairOf(e.parc), org |-> PairOf(e.orgc), hs |-> e.hs, pm |-> e.pm,
+            probes |-> [k \in 1 .. Len(e.probes) |-> <<e.probes[k][1], e.probes[k][2]>>], res |-> e.res, out |-> e.out]
 
 TLoose == /\ ~Strict /\ T.kind = "chain" /\ IsEv
           /\ objs' = [i \in 1 .. Len(Ev.objs) |-> ObsObj(Ev.objs[i])]
